@@ -80,6 +80,16 @@ def add_type(kc, q, backend, pfx, nbytes, with_strings, with_scale):
         assert!(<%(Q)s as Quantity>::unit_from_symbol(s) == Some(%(T)s_ORDER[FIRST[i]]), "unit_from_symbol agrees");
         kani::cover!(i == %(T)s_N - 1, "last index");
     """ % {"T": T, "U": U, "Q": Q, "n": n, "fi": ", ".join(map(str, fi))}, unwind=max(n, maxsym) + 2, key=keyp + " lookup declared symbols"))
+    # concrete witnesses for declared symbols outside ASCII (at most four per type): the harness above selects the symbol by a
+    # symbolic index, which CBMC may not finish when the lookup is generated as a `match` on literals; these finish in seconds
+    nonascii = [k for k, u in enumerate(order) if any(ord(ch) > 127 for ch in u.symbol)][:4]
+    if nonascii:
+        body = ""
+        for k in nonascii:
+            body += ('        assert!(<%(U)s as Unit>::from_symbol(%(T)s_ORDER_SYMS[%(k)d]) == Some(%(T)s_ORDER[%(f)d]), "a declared non-ASCII symbol finds its unit");\n'
+                     '        assert!(<%(Q)s as Quantity>::unit_from_symbol(%(T)s_ORDER_SYMS[%(k)d]) == Some(%(T)s_ORDER[%(f)d]), "unit_from_symbol finds a declared non-ASCII symbol");\n'
+                     % {"T": T, "U": U, "Q": Q, "k": k, "f": fi[k]})
+        kc.add(Harness("lookup_nonascii_" + tag, body, unwind=max(n, maxsym) + 2, key=keyp + " lookup non-ASCII declared symbols (concrete)", symbolic=False))
     if with_strings:
         kc.add(Harness("lookup_strings_" + tag, """
         let bytes: [u8; %(nb)d] = kani::any();
